@@ -562,3 +562,58 @@ mod test {
         }
     }
 }
+
+// Verification hooks (add-only, compiled only with `--cfg rngs_verif`).
+// Accessors and constructors only; no hook re-implements any logic.
+#[cfg(rngs_verif)]
+impl Isaac64Core {
+    /// Verification hook: a core with all-zero memory and a = b = c = 0.
+    pub fn verif_zeroed() -> Self {
+        Self {
+            mem: [w(0); RAND_SIZE],
+            a: w(0),
+            b: w(0),
+            c: w(0),
+        }
+    }
+
+    /// Verification hook: read one memory word.
+    pub fn verif_mem(&self, i: usize) -> u64 {
+        self.mem[i].0
+    }
+
+    /// Verification hook: write one memory word.
+    pub fn verif_set_mem(&mut self, i: usize, v: u64) {
+        self.mem[i] = w(v);
+    }
+
+    /// Verification hook: read (a, b, c).
+    pub fn verif_abc(&self) -> (u64, u64, u64) {
+        (self.a.0, self.b.0, self.c.0)
+    }
+
+    /// Verification hook: set (a, b, c).
+    pub fn verif_set_abc(&mut self, a: u64, b: u64, c: u64) {
+        self.a = w(a);
+        self.b = w(b);
+        self.c = w(c);
+    }
+}
+
+#[cfg(rngs_verif)]
+impl Isaac64Rng {
+    /// Verification hook: wrap a core in a fresh (empty-buffer) generator.
+    pub fn verif_from_core(core: Isaac64Core) -> Self {
+        Isaac64Rng(BlockRng64::new(core))
+    }
+
+    /// Verification hook: read access to the wrapped block generator.
+    pub fn verif_inner(&self) -> &BlockRng64<Isaac64Core> {
+        &self.0
+    }
+
+    /// Verification hook: write access to the wrapped block generator.
+    pub fn verif_inner_mut(&mut self) -> &mut BlockRng64<Isaac64Core> {
+        &mut self.0
+    }
+}
